@@ -47,7 +47,8 @@ class SymWorld(S.World):
         return S.atom_array(name, *dims, sym=sym)
 
     def pos(self, name, *dims):
-        self.assumptions.add(f"{name} >= 0 (precondition)")
+        self.assumptions.add(f"{name} > 0 (precondition)")
+        self.ctx.__dict__.setdefault("positive", set()).add(name)
         return S.atom_array(name, *dims)
 
     def symm(self, name, batch, D):
@@ -57,6 +58,12 @@ class SymWorld(S.World):
 
     def spd(self, name, batch, D):
         """well-formed covariance/precision pair: returns dict S (cov), L (prec), ld (= ln det S)"""
+        if isinstance(D, int) and D == 1:
+            # 1x1 covariance: a positive scalar per component; precision = reciprocal, ln det = log
+            s = S.atom_array(f"S{name}", *batch)
+            self.ctx.__dict__.setdefault("positive", set()).add(f"S{name}")
+            self.assumptions.add(f"S{name} > 0 (1x1 covariance)")
+            return dict(S=s[..., None, None], L=(1.0 / s)[..., None, None], ld=S.log(s))
         P, Q, ld = f"S{name}", f"L{name}", f"ld{name}"
         nb = len([b for b in batch if not (isinstance(b, int) and b == 1)])
         MX.declare_pair(self, P, Q, ld, nb)
@@ -184,6 +191,12 @@ class SymWorld(S.World):
 
     def ld_rule(self, matrix, value, lemma):
         MX.add_logdet_rule(self, matrix, value, lemma)
+
+    def holds(self, name, b):
+        """clause: a boolean array computed by the code is all-true"""
+        ok = isinstance(b, S.BoolConst) and b.value
+        self.results.append(ClauseResult(name, bool(ok), "" if ok else f"not provably all-true: {b!r}", 0.0, "kernel"))
+        return bool(ok)
 
     def kernel_option(self, name, value=True):
         """obligation-level kernel configuration (every setting is a sound rewriting strategy, none adds an assumption)"""
@@ -602,6 +615,11 @@ class NumWorld:
 
     def kernel_option(self, name, value=True):
         pass
+
+    def holds(self, name, b):
+        ok = bool(self.np.all(self.np.asarray(b)))
+        self.results.append(ClauseResult(name, ok, "" if ok else f"values {_tolist(b)}", 0.0, "numeric"))
+        return ok
 
     def have_inverse(self, X, E, lemma):
         np = self.np
